@@ -145,7 +145,8 @@ def stage_spec(workdir):
 
 def tlc(workdir, module, cfg, workers=1, timeout=1800, heap="4g", extra=(), dfs=False):
     """Run TLC in workdir (spec files staged there). Returns dict with rc, out and parsed stats."""
-    java = ["java", "-XX:+UseSerialGC" if workers == 1 else "-XX:+UseParallelGC", "-Xmx" + heap, "-Xss64m"]
+    java = ["java", "-XX:+UseSerialGC" if workers == 1 else "-XX:+UseParallelGC", "-Xmx" + heap, "-Xss64m",
+            "-Djava.io.tmpdir=" + workdir]       # TLC leaves an empty tlc-* directory per run in java.io.tmpdir: keep it in the scratch space
     if dfs:
         java.append("-Dtlc2.tool.queue.IStateQueue=StateDeque")
     cmd = java + ["-cp", _TLC_CP, "tlc2.TLC", "-workers", str(workers), "-noGenerateSpecTE",
